@@ -299,6 +299,13 @@ class FortranEngine:
                 self.iterations[t] = iteration
                 solved[i] = False
 
+            # Period is out of bounds, or leaves insufficient lags or leads
+            elif error_code in (11, 12, 13, 14):
+                raise IndexError(
+                    f'Unable to solve position `t` ({t}) in a span of {len(self.span)} period(s): '
+                    f'model requires {self.lags} lag(s) and {self.leads} lead(s)'
+                )
+
             # Any uncaught errors
             else:
                 raise FortranEngineError(
@@ -379,6 +386,18 @@ class FortranEngine:
         if errors not in self._ERROR_OPTIONS:
             raise ValueError(f'Invalid `errors` argument: {errors}')
 
+        # Error if the period cannot accommodate the model's lags and leads
+        # (before making any changes, as in `BaseModel.solve_t()`)
+        t_check = t
+        if t_check < 0:
+            t_check += len(self.span)
+
+        if t_check - self.lags < 0 or t_check + self.leads >= len(self.span):
+            raise IndexError(
+                f'Unable to solve position `t` ({t}) in a span of {len(self.span)} period(s): '
+                f'model requires {self.lags} lag(s) and {self.leads} lead(s)'
+            )
+
         # Optionally copy initial values from another period
         if offset:
             t_check = t
@@ -453,6 +472,13 @@ class FortranEngine:
 
         elif error_code == 22 and errors == 'skip':
             status = SolutionStatus.SKIPPED.value
+
+        # `t` is out of bounds, or leaves insufficient lags or leads
+        elif error_code in (11, 12, 13, 14):
+            raise IndexError(
+                f'Unable to solve position `t` ({t}) in a span of {len(self.span)} period(s): '
+                f'model requires {self.lags} lag(s) and {self.leads} lead(s)'
+            )
 
         else:
             raise FortranEngineError(
